@@ -72,11 +72,14 @@ func (f *fakeCRI) ImageStatus(ctx context.Context, in *runtime.ImageStatusReques
 	}
 	x := in.GetImage().GetImage()
 	img := &runtime.Image{}
-	for ref, id := range f.refs {
-		norm, _ := normalise(x)
-		if id == x || ref == norm {
-			img.Id = id
+	if strings.HasPrefix(x, "sha256:") {
+		for _, id := range f.refs {
+			if id == x {
+				img.Id = id
+			}
 		}
+	} else if norm, ok := normalise(x); ok {
+		img.Id = f.refs[norm]
 	}
 	if img.Id == "" {
 		return &runtime.ImageStatusResponse{}, nil
@@ -516,6 +519,7 @@ func runSeqHistory(r *vf.Run, idx int, rng *prng.R) {
 					model.onRemoved(ref, how)
 				}
 				r.Count("keychain_removes_"+how, 1)
+				desc[len(desc)-1] += fmt.Sprintf(" => runtime removed image %q with names %v", name, backend.lastRemoved)
 			} else {
 				r.Count("keychain_removes_backend_failed", 1)
 			}
@@ -526,7 +530,7 @@ func runSeqHistory(r *vf.Run, idx int, rng *prng.R) {
 	r.Count("keychain_tempting_empty_answers", st.denied)
 	d := strings.Join(desc, "; ")
 	if st.nonEmpty > 0 && st.denied > 0 {
-		r.NonTrivial("kc-seq:" + d)
+		nt.add("keychain-sequential", "kc-seq:"+d)
 		r.Count("keychain_seq_nontrivial", 1)
 	}
 	r.Count("keychain_seq_histories", 1)
@@ -716,7 +720,7 @@ func runConcHistory(r *vf.Run, idx int, rng *prng.R) {
 	r.Count("keychain_conc_histories", 1)
 	r.Count("keychain_conc_ops", len(all))
 	if nonEmpty > 0 && queries > nonEmpty {
-		r.NonTrivial("kc-conc:" + strings.Join(desc, ";"))
+		nt.add("keychain-concurrent", "kc-conc:"+strings.Join(desc, ";"))
 		r.Count("keychain_conc_nontrivial", 1)
 	}
 	if idx < 1 {
